@@ -20,29 +20,9 @@ func c03(c *q.Ctx) {
 	const st = "bcs/ledger/xledger/state::"
 	const xm = "bcs/ledger/xledger/state/xmodel::"
 	const txp = "bcs/ledger/xledger/tx::"
-	blockTx := q.Cond{Canon: "(0 < len(p1.Blockid))", Sense: true}
 
 	commitVersionChecks(c)
 	poolReadmission(c)
-	vo := c.Fn(xm + "(*XModel).verifyOutputs")
-	if vo != nil {
-		c.Guard(vo, q.Cond{Canon: "newmap<map[string]bool>[xmodel.makeRawKey(p1.TxOutputsExt[].Bucket,p1.TxOutputsExt[].Key)]", Sense: false}, q.ToSuccess(), q.Opt{})
-		c.Guard(vo, q.Cond{Canon: "(nil == p1.TxOutputsExt[].Value)", Sense: true}, q.ToSuccess(), q.Opt{})
-	}
-	gu := c.Fn(xm + "(*XModel).GetUncommited")
-	if gu != nil {
-		c.ArgIs(gu, "Map.Load", 1, "xmodel.makeRawKey(p1,p2)", 1, "cache looked up by the same raw key it is stored under")
-	}
-	c.WhoCalls("XModel.GetUncommited", map[string]string{xm + "(*XModel).verifyInputs": "version check of a block transaction"}, "the in-batch cache is only consulted by the version check")
-	up := c.Fn(xm + "(*XModel).updateExtUtxo")
-	if up != nil {
-		keepTx := func(g q.Cond) bool {
-			return strings.Contains(g.Canon, "p1.") && !strings.Contains(g.Canon, "len(p1.TxOutputsExt)")
-		}
-		c.Effect(up, q.Eff{Spec: "Map.Store", Arg: 0, Glob: "xmodel.makeRawKey(p1.TxOutputsExt[].Bucket,p1.TxOutputsExt[].Key)", Req: []q.Cond{{Canon: "(\"$transient\" == p1.TxOutputsExt[].Bucket)", Sense: false}, blockTx}, Exact: true, Keep: keepTx, Why: "every block write - puts and deletes alike - is visible to the later transactions of the block", Rule: "K2"})
-		c.ArgIs(up, "Map.Store", 2, "xmodel.MakeVersion(p1.Txid,#i)", 1, "the cached version is the one written to the batch")
-	}
-
 	// ---- doTxInternal: token mutation only after the key/value model accepted
 	do := c.Fn(st + "(*State).doTxInternal")
 	if do != nil {
@@ -193,6 +173,24 @@ func commitVersionChecks(c *q.Ctx) {
 		c.Gate(vi, "XModel.Get|XModel.GetUncommited", q.ToSuccess(), q.Opt{K1Only: true, Min: 2})
 		// the value whose version is compared is the one that was read for the same bucket/key
 		c.Guard(vi, q.Cond{Canon: "(xmodel.GetVersion(phi{xmodel.(*XModel).Get(p0,p1.TxInputsExt[].Bucket,p1.TxInputsExt[].Key)#0|xmodel.(*XModel).GetUncommited(p0,p1.TxInputsExt[].Bucket,p1.TxInputsExt[].Key)#0}) == xmodel.GetVersionOfTxInput(p1.TxInputsExt[]))", Sense: false}, q.ToSuccess(), q.Opt{})
+	}
+	vo := c.Fn(xm + "(*XModel).verifyOutputs")
+	if vo != nil {
+		c.Guard(vo, q.Cond{Canon: "newmap<map[string]bool>[xmodel.makeRawKey(p1.TxOutputsExt[].Bucket,p1.TxOutputsExt[].Key)]", Sense: false}, q.ToSuccess(), q.Opt{})
+		c.Guard(vo, q.Cond{Canon: "(nil == p1.TxOutputsExt[].Value)", Sense: true}, q.ToSuccess(), q.Opt{})
+	}
+	gu := c.Fn(xm + "(*XModel).GetUncommited")
+	if gu != nil {
+		c.ArgIs(gu, "Map.Load", 1, "xmodel.makeRawKey(p1,p2)", 1, "cache looked up by the same raw key it is stored under")
+	}
+	c.WhoCalls("XModel.GetUncommited", map[string]string{xm + "(*XModel).verifyInputs": "version check of a block transaction"}, "the in-batch cache is only consulted by the version check")
+	up := c.Fn(xm + "(*XModel).updateExtUtxo")
+	if up != nil {
+		keepTx := func(g q.Cond) bool {
+			return strings.Contains(g.Canon, "p1.") && !strings.Contains(g.Canon, "len(p1.TxOutputsExt)")
+		}
+		c.Effect(up, q.Eff{Spec: "Map.Store", Arg: 0, Glob: "xmodel.makeRawKey(p1.TxOutputsExt[].Bucket,p1.TxOutputsExt[].Key)", Req: []q.Cond{{Canon: "(\"$transient\" == p1.TxOutputsExt[].Bucket)", Sense: false}, blockTx}, Exact: true, Keep: keepTx, Why: "every block write - puts and deletes alike - is visible to the later transactions of the block", Rule: "K2"})
+		c.ArgIs(up, "Map.Store", 2, "xmodel.MakeVersion(p1.Txid,#i)", 1, "the cached version is the one written to the batch")
 	}
 }
 
